@@ -2,6 +2,7 @@
 # usage: tools/seedrun.sh <seed dir name> <prop> [tier]   -- applies the seeded change to /repo, runs the check, undoes it
 set -u
 d=/verif/seeded/$1; prop=$2; tier=${3:-quick}
+export VERIF_EVIDENCE_DIR=/tmp/verif_scratch_evidence; mkdir -p $VERIF_EVIDENCE_DIR
 cd /repo && git apply $d/patch.diff || { echo "APPLY FAILED"; exit 9; }
 cd /verif && python3-vt vcheck.py $prop --tier $tier > /tmp/seedrun_$1_$prop.log 2>&1; code=$?
 git -C /repo checkout -- . 
